@@ -223,7 +223,11 @@ def launch(pj, c, res, i, timeout=90):
     env = pj.env(c.get('extra'))
     js = None
     fds = ()
-    if c.get('slots'):
+    if c.get('shared_js') is not None:
+        # all invocations of the round draw on one token pipe (several redo trees under one `make -jN`): tokens get stolen
+        env.update(c['shared_js'].env())
+        fds = c['shared_js'].fds()
+    elif c.get('slots'):
         js = HarnessJobserver(c['slots'])
         env.update(js.env())
         fds = js.fds()
@@ -290,6 +294,11 @@ def case(item):
         pool = [['redo-ifchange', 'top'], ['redo-ifchange', 'top'], ['redo', 'top'], ['redo-ifchange', 'g0', 'g1'], ['redo', 'g1'],
                 ['redo-ifchange', 'st', leaves[0]], ['redo', leaves[0], leaves[3]], ['redo-ifchange'] + leaves[:4]]
 
+        shared = None
+        if jmax > 1 and seed % 3 == 0:
+            shared = HarnessJobserver(max(2, jmax))
+            sets['jobserver'] = ['shared']
+
         def mk(phase):
             cmds = []
             for i in range(ninv):
@@ -299,7 +308,9 @@ def case(item):
                 if delays:
                     extra['REDO_VERIF_DELAY'] = delays
                 c = dict(argv=argv, delay=rnd.random() * 0.06, extra=extra)
-                if j > 1:
+                if shared is not None:
+                    c['shared_js'] = shared
+                elif j > 1:
                     if argv[0] == 'redo':
                         c['argv'] = ['redo', '-j%d' % j] + argv[1:]
                     else:
@@ -378,6 +389,8 @@ def case(item):
         obs['sequential_rebuilds_by_other_invocations'] = sum(c - 1 for c in cnt.values() if c > 1)
     finally:
         sampler.stop_ = True
+        if 'shared' in dir() and shared is not None:
+            shared.close()
         pj.close()
     res = dict(verdict='violated' if anoms else 'held', nontrivial=obs.get('script_starts', 0) >= 4 and obs.get('lock_acquisitions', 0) >= 4,
                shape=common.shash(list(item)), sample=sample, obs=obs, sets=sets)
@@ -441,7 +454,7 @@ def dispatch(item):
 
 
 RULE = ('contention rounds on one project (6-12 shared leaves under 2-4 groups, a checksummed target below two consumers): 2-8 top-level '
-        'invocations (redo-ifchange / redo, overlapping target sets, -j1..4, own and inherited jobserver) released within 60 ms, then an edit below '
+        'invocations (redo-ifchange / redo, overlapping target sets, -j1..4, own, inherited and shared jobserver (all invocations of a round on one token pipe, so that tokens are stolen)) released within 60 ms, then an edit below '
         'the checksummed target and a second contention phase (redo-unlocked path); seeded script durations; delay hooks after child exit / '
         'before recording, after lock / before refresh, after commit, before the blocking lock wait; abort modes: a script failing in one '
         'invocation, an invocation that meets a hard error (dependency cycle) while its job runs, SIGTERM / SIGKILL to the whole session of '
